@@ -7,7 +7,7 @@ import subprocess
 V = os.path.dirname(os.path.dirname(os.path.abspath(__file__)))
 p = os.path.join(V, "DESIGN.md")
 s = open(p).read()
-for name, script in (("STATUS-TABLE", "statustable.py"), ("SEED-TABLE", "seedtable.py")):
+for name, script in (("STATUS-TABLE", "statustable.py"), ("SEED-TABLE", "seedtable.py"), ("COST-TABLE", "costtable.py")):
     out = subprocess.run(["python3", os.path.join(V, "vlib", script)], stdout=subprocess.PIPE, text=True, check=True).stdout
     s = re.sub(r"<!-- %s-BEGIN -->.*?<!-- %s-END -->" % (name, name), lambda m: "<!-- %s-BEGIN -->\n%s<!-- %s-END -->" % (name, out, name), s, flags=re.S)
 open(p, "w").write(s)
